@@ -346,15 +346,13 @@ func (c17) Run(c *Ctx, raw json.RawMessage) Case {
 	}
 	// (2) boilerplate verbatim, whole lines, before the package clause
 	if or.OK && in.Boilerplate != nil {
-		want := *in.Boilerplate
-		i := strings.Index(header, want)
-		switch {
-		case i < 0:
-			or = fail("boilerplate-not-verbatim", "the boilerplate text does not appear verbatim before the package clause; header: %q", header)
-		case i > 0 && header[i-1] != '\n':
-			or = fail("boilerplate-not-verbatim", "the boilerplate text does not start on its own line; header: %q", header)
-		case !strings.HasSuffix(want, "\n") && header[i+len(want)] != '\n':
-			or = fail("boilerplate-not-verbatim", "text follows the boilerplate on its last line; header: %q", header)
+		// the text must occupy whole lines: it starts at the beginning of a line and its last line ends there
+		needle := "\n" + *in.Boilerplate
+		if !strings.HasSuffix(needle, "\n") {
+			needle += "\n"
+		}
+		if !strings.Contains("\n"+header, needle) {
+			or = fail("boilerplate-not-verbatim", "the boilerplate text does not appear verbatim, on lines of its own, before the package clause; header: %q", header)
 		}
 	}
 	// (3) the toolchain's view: is the file part of the package under each tag set?
